@@ -120,6 +120,7 @@ class Ctx:
         res = {"module": module, "cfg": cfg, "generated": 0, "distinct": 0,
                "violated": None, "violations": [], "cases": 0, "error": None}
         pending = None
+        pending_bad = None
         timed_out = []
 
         def _kill():
@@ -143,6 +144,15 @@ class Ctx:
                         self._case(line, on_case, res)
                     else:
                         pending = line
+                    continue
+                if pending_bad is not None:
+                    pending_bad += " " + line.strip()
+                    if line.rstrip().endswith(">>"):
+                        out.append(re.sub(r'^<<\s*', '<<', re.sub(r'\s*>>$', '>>', re.sub(r',\s+', ', ', pending_bad))))
+                        pending_bad = None
+                    continue
+                if re.match(r'^<<\s*"BAD"', line) and not line.rstrip().endswith(">>"):
+                    pending_bad = line.strip()
                     continue
                 out.append(line)
                 m = re.search(r"(\d+) states generated, (\d+) distinct states found", line)
